@@ -7,129 +7,57 @@ with a shape the translator does not know) is reported to the caller as a
 TranslatorError; the caller treats it as a broken proof obligation, not as a crash.
 """
 import os
-import struct
 import sys
 
 HERE = os.path.dirname(os.path.abspath(__file__))
 VERIF = os.path.dirname(HERE)
 GEN_DIR = os.path.join(VERIF, "lean", "CanopenModel", "Generated")
+if HERE not in sys.path:
+    sys.path.insert(0, HERE)
 
 
-class TranslatorError(Exception):
-    pass
+from genlib import TranslatorError  # noqa: E402
 
 
-def lstr(s):
-    out = '"'
-    for ch in s:
-        if ch == '"':
-            out += '\\"'
-        elif ch == "\\":
-            out += "\\\\"
-        elif ch == "\n":
-            out += "\\n"
-        elif 32 <= ord(ch) < 127:
-            out += ch
-        else:
-            out += "\\u{%x}" % ord(ch)
-    return out + '"'
+def discover():
+    """harness/gen/*.py each export GENERATORS = {"LeanModuleName": function returning text}.
+    Returns (generators, errors)."""
+    import importlib
+    gens, errs = {}, {}
+    for fn in sorted(os.listdir(os.path.join(HERE, "gen"))):
+        if fn.endswith(".py") and not fn.startswith("_"):
+            try:
+                mod = importlib.import_module("gen." + fn[:-3])
+                gens.update(mod.GENERATORS)
+            except Exception as e:
+                for n in GEN_FILES.get(fn, ["*"]):
+                    errs[n] = f"gen/{fn}: {type(e).__name__}: {e}"
+    return gens, errs
 
 
-def lchars(s):
-    for ch in s:
-        if not (32 < ord(ch) < 127) or ch in "'\\":
-            raise TranslatorError(f"unexpected character {ch!r} in a format string")
-    return "[" + ", ".join(f"'{ch}'" for ch in s) + "]"
-
-
-def lnat(n):
-    if not isinstance(n, int) or isinstance(n, bool) or n < 0:
-        raise TranslatorError(f"expected a natural number, got {n!r}")
-    return str(n)
-
-
-def lbool(b):
-    return "true" if b else "false"
-
-
-def llist(items):
-    return "[" + ", ".join(items) + "]"
-
-
-def lnatlist(xs):
-    return llist([lnat(x) for x in xs])
-
-
-def header(name, what):
-    return (f"/- GENERATED by harness/gen_tables.py from /repo's working tree on every run.\n"
-            f"   Do not edit.  Source: {what} -/\n"
-            f"namespace Canopen.Gen.{name}\n\n")
-
-
-def footer(name):
-    return f"\nend Canopen.Gen.{name}\n"
-
-
-# ----------------------------------------------------------------------------------------
-def gen_datatypes():
-    from canopen.objectdictionary import datatypes as dt
-    from canopen.objectdictionary import ODVariable
-    out = header("Datatypes", "canopen/objectdictionary/datatypes.py, ODVariable.STRUCT_TYPES")
-    names = ["BOOLEAN", "INTEGER8", "INTEGER16", "INTEGER32", "UNSIGNED8", "UNSIGNED16",
-             "UNSIGNED32", "REAL32", "VISIBLE_STRING", "OCTET_STRING", "UNICODE_STRING",
-             "TIME_OF_DAY", "TIME_DIFFERENCE", "DOMAIN", "INTEGER24", "REAL64", "INTEGER40",
-             "INTEGER48", "INTEGER56", "INTEGER64", "UNSIGNED24", "UNSIGNED40", "UNSIGNED48",
-             "UNSIGNED56", "UNSIGNED64"]
-    for n in names:
-        if not hasattr(dt, n):
-            raise TranslatorError(f"datatypes.{n} missing")
-        out += f"def {n} : Nat := {lnat(getattr(dt, n))}\n"
-    out += "\n"
-    for n in ["SIGNED_TYPES", "UNSIGNED_TYPES", "INTEGER_TYPES", "FLOAT_TYPES", "NUMBER_TYPES",
-              "DATA_TYPES"]:
-        out += f"def {n} : List Nat := {lnatlist(list(getattr(dt, n)))}\n"
-    out += ("\n/-- one row of `ODVariable.STRUCT_TYPES`: data type, class (0 = struct.Struct,\n"
-            "    1 = UnsignedN, 2 = IntegerN), format of the underlying struct.Struct,\n"
-            "    `.size` as seen by callers (sliced width for the N classes), declared width -/\n"
-            "structure StructRow where\n  dtype : Nat\n  cls : Nat\n  fmt : List Char\n"
-            "  size : Nat\n  width : Nat\nderiving Repr, DecidableEq\n\n")
-    rows = []
-    for k, st in ODVariable.STRUCT_TYPES.items():
-        if type(st) is struct.Struct:
-            cls, width = 0, st.size * 8
-        elif type(st) is dt.UnsignedN:
-            cls, width = 1, st.width
-        elif type(st) is dt.IntegerN:
-            cls, width = 2, st.width
-        else:
-            raise TranslatorError(f"STRUCT_TYPES[{k}] has unknown class {type(st)}")
-        rows.append(f"  ⟨{lnat(k)}, {cls}, {lchars(st.format)}, {lnat(st.size)}, {lnat(width)}⟩")
-    out += "def STRUCT_TYPES : List StructRow := [\n" + ",\n".join(rows) + "]\n"
-    out += footer("Datatypes")
-    return out
-
-
-GENERATORS = {
-    "Datatypes": gen_datatypes,
-}
+# which Lean modules each generator file is responsible for (used only to attribute a failure
+# to import a generator file to the properties that depend on it)
+GEN_FILES = {}
 
 
 def generate(repo="/repo", only=None):
-    """Regenerate tables; returns dict name -> 'written' | 'unchanged'.
-    Raises TranslatorError on failure."""
+    """Regenerate tables.  Returns (status, errors): status maps name -> 'written'|'unchanged',
+    errors maps name -> message for every table that could not be translated (its file is left
+    as it was).  The caller treats an error in a table its property depends on as a broken
+    proof obligation."""
     if sys.path[0] != repo:
         sys.path.insert(0, repo)
     os.makedirs(GEN_DIR, exist_ok=True)
+    gens, errs = discover()
     res = {}
-    for name, fn in GENERATORS.items():
+    for name, fn in gens.items():
         if only and name not in only:
             continue
         try:
             text = fn()
-        except TranslatorError:
-            raise
-        except Exception as e:  # import errors, attribute errors, ...
-            raise TranslatorError(f"{name}: {type(e).__name__}: {e}")
+        except Exception as e:  # TranslatorError, import errors, attribute errors, ...
+            errs[name] = f"{type(e).__name__}: {e}"
+            continue
         path = os.path.join(GEN_DIR, name + ".lean")
         old = None
         if os.path.exists(path):
@@ -141,8 +69,8 @@ def generate(repo="/repo", only=None):
             res[name] = "written"
         else:
             res[name] = "unchanged"
-    return res
+    return res, errs
 
 
 if __name__ == "__main__":
-    print(generate())
+    print(generate(os.environ.get("VERIF_REPO", "/repo")))
